@@ -155,6 +155,14 @@ class Adapter(EnvAdapter):
     probe_cap = 5
 
     def configs(self, tier):
+        # time-limit sweep ("for every value passed", C11) on the maze whose ghosts are sealed in (the player cannot die)
+        from harness.envs.base import T_SWEEP_QUICK_FEW, T_SWEEP_THOROUGH_FEW
+
+        ts = T_SWEEP_QUICK_FEW if tier == "quick" else T_SWEEP_THOROUGH_FEW
+        return self._base_configs(tier) + [_c(f"sealed_t{t}_sweep", "sealed", t, episodes=1, max_steps=t + 2, policies=["explore"],
+                                              probe_every=0, props=["C03", "C11"]) for t in ts]
+
+    def _base_configs(self, tier):
         if tier == "quick":
             return [
                 _c("default_tnone", "default", None, episodes=4, max_steps=45, policies=["dive", "explore", "random", "border"]),
